@@ -26,4 +26,19 @@ def regenerate(pid, work):
     new = open(tmp).read()
     if not os.path.exists(out) or open(out).read() != new:
         open(out, "w").write(new)
+    # parser translation
+    ptool = os.path.join(BUILD, "parsers")
+    if os.path.exists(ptool):
+        t1, t2 = os.path.join(work, "Parsers.lean"), os.path.join(work, "ParsersSafe.lean")
+        p = run([ptool, REPO, t1, t2], check=False)
+        if p.returncode != 0:
+            res["problems"].append("parser translator failed: " + p.stdout[-500:])
+        else:
+            res["parsers"] = [l.split("=", 1)[1] for l in p.stdout.splitlines() if l.startswith("parser=")]
+            res["untranslated"] = [l.split("=", 1)[1] for l in p.stdout.splitlines() if l.startswith("untranslated=")]
+            for src, name in ((t1, "Parsers.lean"), (t2, "ParsersSafe.lean")):
+                dst = os.path.join(LEAN, "OlricModel", "Generated", name)
+                new = open(src).read()
+                if not os.path.exists(dst) or open(dst).read() != new:
+                    open(dst, "w").write(new)
     return res
